@@ -97,7 +97,8 @@ def _err_kind(e):
     return 'lookup'
   if isinstance(e, errors.ScopeParamShapeError):
     return 'shape'
-  if isinstance(e, errors.NameInUseError):
+  if isinstance(e, errors.NameInUseError) or (
+      isinstance(e, ValueError) and 'Duplicate use of scope name' in str(e)):
     return 'name'
   if isinstance(e, errors.InvalidRngError):
     return 'rng'
